@@ -238,6 +238,7 @@ _SIGS = {
     'vp_fesetround': (C.c_int, [C.c_int]),
     'vp_round_consts': (None, [P(C.c_int * 4)]),
     'vp_in_transaction': (C.c_int, [c_void_p]),
+    'vp_db_errmsg': (C.c_char_p, [c_void_p]),
     'vp_touch_uchars': (C.c_uint, [c_void_p, C.c_size_t]),
     'vp_touch_bytes': (C.c_uint, [c_void_p, C.c_size_t]),
     'vp_ustrlen': (C.c_size_t, [c_void_p]),
